@@ -29,8 +29,8 @@ structure Node (K : Type) where
   va : K           -- voltage angle estimate
   isRoot : Bool
 
-inductive Tree (α : Type) where
-  | node : α → List (Tree α) → Tree α
+inductive RTree (α : Type) where
+  | node : α → List (RTree α) → RTree α
 
 /-- accumulated quantities at a node after the backward sweep -/
 structure Acc (K : Type) where
@@ -55,7 +55,7 @@ def vIm (vf tp tq r x : K) : K := (tq * r - tp * x) / vf
 mutual
 /-- backward sweep: returns (sum of loads, sum of losses) below and including this node, and the
 tree annotated with the per-node accumulators -/
-def accumulate : Tree (Node K) → (K × K × K × K) × Tree (Acc K × Node K)
+def accumulate : RTree (Node K) → (K × K × K × K) × RTree (Acc K × Node K)
   | .node n cs =>
     let (sums, cs') := accumulateList cs
     let (pc, qc, plc, qlc) := sums
@@ -69,7 +69,7 @@ def accumulate : Tree (Node K) → (K × K × K × K) × Tree (Acc K × Node K)
       let lp := lossP n.r pto qto n.vm
       let lq := lossQ n.x pto qto n.vm
       ((pLoad, qLoad, plc + lp, qlc + lq), .node (⟨pLoad, qLoad, plc + lp, qlc + lq, lp, lq⟩, n) cs')
-def accumulateList : List (Tree (Node K)) → (K × K × K × K) × List (Tree (Acc K × Node K))
+def accumulateList : List (RTree (Node K)) → (K × K × K × K) × List (RTree (Acc K × Node K))
   | [] => ((Arith.zero, Arith.zero, Arith.zero, Arith.zero), [])
   | t :: ts =>
     let (s1, t') := accumulate t
@@ -79,7 +79,7 @@ end
 
 mutual
 /-- forward sweep: new voltages from the parent's voltage and the accumulated powers -/
-def forward (vfm vfa : K) : Tree (Acc K × Node K) → Tree (Node K)
+def forward (vfm vfa : K) : RTree (Acc K × Node K) → RTree (Node K)
   | .node (a, n) cs =>
     if n.isRoot then
       .node n (forwardList n.vm n.va cs)
@@ -89,22 +89,22 @@ def forward (vfm vfa : K) : Tree (Acc K × Node K) → Tree (Node K)
       let vm := Arith.sqrt (vmag2 vfm tp tq n.r n.x)
       let va := vfa + Arith.atan2 (vIm vfm tp tq n.r n.x) (vRe vfm tp tq n.r n.x)
       .node { n with vm := vm, va := va } (forwardList vm va cs)
-def forwardList (vfm vfa : K) : List (Tree (Acc K × Node K)) → List (Tree (Node K))
+def forwardList (vfm vfa : K) : List (RTree (Acc K × Node K)) → List (RTree (Node K))
   | [] => []
   | t :: ts => forward vfm vfa t :: forwardList vfm vfa ts
 end
 
 /-- one backward + forward sweep -/
-def sweep (t : Tree (Node K)) : Tree (Node K) := forward Arith.one Arith.zero (accumulate t).2
+def sweep (t : RTree (Node K)) : RTree (Node K) := forward Arith.one Arith.zero (accumulate t).2
 
-def sweeps : Nat → Tree (Node K) → Tree (Node K)
+def sweeps : Nat → RTree (Node K) → RTree (Node K)
   | 0, t => t
   | n + 1, t => sweeps n (sweep t)
 
 mutual
-def nodes {α : Type} : Tree α → List α
+def nodes {α : Type} : RTree α → List α
   | .node n cs => n :: nodesList cs
-def nodesList {α : Type} : List (Tree α) → List α
+def nodesList {α : Type} : List (RTree α) → List α
   | [] => []
   | t :: ts => nodes t ++ nodesList ts
 end
